@@ -159,7 +159,16 @@ func interpolateMap[K comparable, V any, M ~map[K]V](tf stringTransformer, m M) 
 // interpolateOrderedMap applies interpolateAny over any type of ordered.Map.
 // The map is altered in-place.
 func interpolateOrderedMap[K comparable, V any](tf stringTransformer, m *ordered.Map[K, V]) error {
-	return m.Range(func(k K, v V) error {
+	if m == nil {
+		return nil
+	}
+
+	// Build the interpolated pairs aside, then rewrite the map in the same
+	// order. Renaming keys with Replace while ranging would delete a pair that
+	// hasn't been visited yet when its original key equals an interpolated
+	// key (e.g. "$$X" followed by "$X").
+	pairs := make([]ordered.Tuple[K, V], 0, m.Len())
+	err := m.Range(func(k K, v V) error {
 		// We interpolate both keys and values.
 		intk, err := interpolateAny(tf, k)
 		if err != nil {
@@ -170,7 +179,13 @@ func interpolateOrderedMap[K comparable, V any](tf stringTransformer, m *ordered
 			return err
 		}
 
-		m.Replace(k, intk, intv)
+		pairs = append(pairs, ordered.Tuple[K, V]{Key: intk, Value: intv})
 		return nil
 	})
+	if err != nil {
+		return err
+	}
+
+	*m = *ordered.MapFromItems(pairs...)
+	return nil
 }
